@@ -325,7 +325,8 @@ impl Scenario {
                     line(&mut s, "pause P");
                     line(&mut s, c);
                 }
-                line(&mut s, "wait");
+                // `wait` returns > 128 when a trapped signal (SIGCHLD) interrupts it
+                line(&mut s, "until wait; do :; done");
             }
             other => panic!("unknown kind {other}"),
         }
@@ -408,6 +409,8 @@ pub struct Obs {
     /// (pid, first argument) of every `probe` event: the trap actions and
     /// function bodies of the alphabet are `probe <tag>`
     pub probes: Vec<(i32, String)>,
+    /// files /tmp/r* existing after the run (created by redirection-only commands)
+    pub files: Vec<String>,
 }
 
 pub fn run_once(sc: &Scenario, plan: &[String], schedule: Schedule) -> Obs {
@@ -472,7 +475,10 @@ pub fn run_once(sc: &Scenario, plan: &[String], schedule: Schedule) -> Obs {
         outcome = format!("{outcome}+duplicate-snapshot");
     }
     PINS.with(|p| p.borrow_mut().clear());
-    Obs { outcome, status: r.status, snaps, out, stderr: r.stderr_str(), choices: r.choices.clone(), events: r.events, plan: plan.to_vec(), probes }
+    let mut files: Vec<String> =
+        shell::inode_paths(&r.state).into_iter().map(|x| x.1).filter(|p| p.starts_with("/tmp/r")).collect();
+    files.sort();
+    Obs { outcome, status: r.status, snaps, out, stderr: r.stderr_str(), choices: r.choices.clone(), events: r.events, plan: plan.to_vec(), probes, files }
 }
 
 fn get<'a>(m: &'a Flat, k: &str) -> &'a str {
@@ -594,6 +600,7 @@ pub fn record(sc: &Scenario, obs: &Obs) -> Value {
         "out": obs.out,
         "probes": parent_probes,
         "oprobes": other_probes,
+        "files": obs.files,
     })
 }
 
